@@ -805,6 +805,7 @@ func init() {
 
 func init() {
 	register(&checkDef{prop: "C15", parts: []part{
+		{name: "sim_bounded_carrier", gen: genMixedTermBounded, monitors: []Monitor{monCarrierUse}, labels: commonLabels, nontrivial: ntCarrierUse, quick: 400, thorough: 12000},
 		{name: "stress", gen: genStress, exec: execStress, monitors: []Monitor{monC15}, labels: commonLabels, nontrivial: ntStress, quick: 150, thorough: 6000, race: true, procs: 16, shards: 4},
 	},
 		assumptions: []string{"the race detector judges only accesses that actually occur in a run; this is dynamic exploration under real parallelism"},
